@@ -20,6 +20,11 @@ position ``k`` when rows of ``R`` are not unique, which is the weaker reading):
                  belongs (under every window candidate of the render immediately before) to a selectable
                  item  =>  focus_position is that item right after mouse_event returns
 
+Items are leaves, Piles and Columns rows (cells of unequal height, padded below by the canvas layer).  When
+a call into the ListBox raises, the case is discarded only if some item is unsound when drawn from scratch
+(canvas cache by-passed); an item that only fails through canvases kept from earlier renders of the same
+history is the property's business ("any history ... never raises").
+
 Insertions, deletions and replacements are performed through every spelling of the walker's list API
 (and splices / in-place reorders, which are several of them reported at once); release and drag
 events take part in the histories with no clause of their own.
@@ -44,7 +49,10 @@ LEVEL = "exploration"
 RULE = (
     "Hypothesis op lists (quick <=30, thorough <=80 ops) over a ListBox of 0..12 flow items (Text of 1..many "
     "rows in wrap space/any/clip, Edit single/multi-line with the cursor anywhere, Button, SelectableIcon, "
-    "Divider, empty Pile (0 rows), Pile of leaves; bare or wrapped in AttrMap so rows carry an item tag) on "
+    "Divider, empty Pile (0 rows), Pile of leaves, Columns row of 1..3 cells (given width 1..12 or weight 1..3, "
+    "dividechars 0..2, each cell a leaf or a Pile of leaves, bare or AttrMap-wrapped: cells of unequal height "
+    "that grow and shrink with the width and with editing keys); bare or wrapped in AttrMap so rows carry an "
+    "item tag) on "
     "SimpleListWalker, SimpleFocusListWalker or a custom dict-backed ListWalker with string positions; ops: "
     "keys (up/down/page up/page down/home/end/left/right/enter/backspace/characters), mouse events on any "
     "cell of the last rendered size - press of button 1/2/3/4/5 under every event name the display modules "
@@ -64,7 +72,9 @@ RULE = (
 ASSUMPTIONS = [
     "the items' own render((cols,), focus) / rows / get_cursor_coords are the reference for what a row of "
     "the list looks like (item widgets themselves are C01/C09/C10's subject); a case in which an item fails "
-    "on its own at the current width is discarded",
+    "on its own at the current width is discarded, where 'on its own' means drawn from scratch with the canvas "
+    "cache by-passed (CanvasCache.fetch/store replaced by no-ops for the duration of that question only): an "
+    "item that is sound from scratch but makes ListBox.render raise after some history of renders is reported",
     "vlib.cells.grid_of (width oracle) is the view of a canvas; blank = space cell with attribute None",
     "the custom walker follows the documented ListWalker protocol (focus attribute, __getitem__, "
     "next_position/prev_position raising IndexError at the ends, set_focus, positions, emits 'modified')",
@@ -194,16 +204,38 @@ def build_leaf(spec, uid):
     raise AssertionError(spec)
 
 
+def _build_pile(inner, base):
+    _, subs, pf = inner
+    kids = [build_leaf(s, base + 1 + n) for n, s in enumerate(subs)]
+    w = urwid.Pile(kids)
+    sel = [n for n, k in enumerate(kids) if k.selectable()]
+    if sel:
+        w.focus_position = sel[pf % len(sel)]
+    return w
+
+
 def build_item(spec, uid):
-    """spec = [wrapped(0/1), leaf-spec] | [wrapped, ["pile", [leaf-spec...], focus]]"""
+    """spec = [wrapped(0/1), leaf-spec] | [wrapped, ["pile", [leaf-spec...], focus]]
+    | [wrapped, ["cols", [[sizing, amount, wrapped, leaf-spec | pile-spec] x 1..3], dividechars, focus]]
+
+    "cols" is a Columns row of flow widgets (the other flow container urwid ships): its height is that of
+    its tallest cell, the shorter cells are padded below by the canvas layer (CanvasJoin)."""
     wrapped, inner = spec
     if inner[0] == "pile":
-        _, subs, pf = inner
-        kids = [build_leaf(s, uid * 16 + 1 + n) for n, s in enumerate(subs)]
-        w = urwid.Pile(kids)
-        sel = [n for n, k in enumerate(kids) if k.selectable()]
+        w = _build_pile(inner, uid * 16)
+    elif inner[0] == "cols":
+        _, cells, div, cf = inner
+        contents = []
+        for n, (sizing, amount, kwrapped, sub) in enumerate(cells):
+            base = uid * 16 + 8 + n
+            k = _build_pile(sub, base * 16) if sub[0] == "pile" else build_leaf(sub, base)
+            if kwrapped:
+                k = urwid.AttrMap(k, {None: f"j{uid}.{n}"})
+            contents.append((amount, k) if sizing == "given" else ("weight", amount, k))
+        w = urwid.Columns(contents, dividechars=div)
+        sel = [n for n, (k, _o) in enumerate(w.contents) if k.selectable()]
         if sel:
-            w.focus_position = sel[pf % len(sel)]
+            w.focus_position = sel[cf % len(sel)]
     else:
         w = build_leaf(inner, uid * 16)
     if wrapped:
@@ -346,6 +378,21 @@ class _RepairedListBox(urwid.ListBox):
         return super()._set_focus_complete(size, focus)
 
 
+class _no_canvas_cache:
+    """Context: every render inside is computed afresh and leaves nothing behind in CanvasCache."""
+
+    def __enter__(self):
+        cc = urwid.CanvasCache
+        self.saved = (cc.__dict__["fetch"], cc.__dict__["store"])
+        cc.fetch = classmethod(lambda cls, widget, wcls, size, focus: None)
+        cc.store = classmethod(lambda cls, wcls, canvas: None)
+
+    def __exit__(self, *exc):
+        cc = urwid.CanvasCache
+        cc.fetch, cc.store = self.saved
+        return False
+
+
 class Harness:
     def __init__(self, case, tweaks=()):
         self.tweaks = tweaks
@@ -393,7 +440,16 @@ class Harness:
 
     # items on their own ---------------------------------------------------------------------
     def items_ok(self):
-        """False if some item fails on its own at the current width (not ListBox's doing)."""
+        """False if some item fails on its own at the current width (not ListBox's doing).
+
+        "On its own" = drawn from scratch: the canvas cache is by-passed while the items are asked, so that
+        the answer does not depend on the history.  An item that is sound when drawn from scratch but breaks
+        the ListBox after a particular history (canvases kept from earlier renders) is a matter of the
+        property ("any history ... never raises"), not a mis-built case."""
+        with _no_canvas_cache():
+            return self._items_ok()
+
+    def _items_ok(self):
         cols = self.size[0]
         for w in self.widgets():
             try:
@@ -810,7 +866,17 @@ _inner = st.one_of(
     st.just(["pile", [], 0]),
     st.tuples(st.just("pile"), st.lists(_leaf, min_size=1, max_size=3), st.integers(0, 2)).map(list),
 )
-_item = st.tuples(st.integers(0, 1), _inner).map(list)
+# a Columns row: 1..3 cells, each of a given width or a weight, holding a leaf or a Pile of leaves, bare or
+# wrapped in AttrMap (a decorated widget renders a CompositeCanvas over its child's canvas)
+_pile = st.tuples(st.just("pile"), st.lists(_leaf, min_size=1, max_size=3), st.integers(0, 2)).map(list)
+_cell = st.one_of(
+    st.tuples(st.just("given"), st.integers(1, 12), st.integers(0, 1), st.one_of(_leaf, _pile)),
+    st.tuples(st.just("weight"), st.integers(1, 3), st.integers(0, 1), st.one_of(_leaf, _pile)),
+).map(list)
+_cols = st.tuples(st.just("cols"), st.lists(_cell, min_size=1, max_size=3), st.integers(0, 2), st.integers(0, 2)).map(
+    list
+)
+_item = st.tuples(st.integers(0, 1), st.one_of(_inner, _cols)).map(list)
 
 KEYS = ["up", "down", "page up", "page down", "home", "end"]
 OTHER_KEYS = ["left", "right", "enter", "backspace", "delete", "a", "x", " ", "tab", "ctrl l", "f5"]
@@ -903,6 +969,11 @@ def _classes(case):
     kinds = {(it[1][0]) for it in case["items"]}
     for k in sorted(kinds):
         out.append("item:" + k)
+    for it in case["items"]:
+        if it[1][0] == "cols":
+            out.append(f"cols:{len(it[1][1])}-cells")
+            for cell in it[1][1]:
+                out.append("cols-cell:" + cell[0] + ":" + cell[3][0] + (":wrapped" if cell[2] else ""))
     if any(it[1][0] == "pile" and not it[1][1] for it in case["items"]):
         out.append("item:empty-pile")
     if not case["items"]:
